@@ -178,6 +178,11 @@ func (r *WireReader) ReadWire(l int) (Wire, error) {
 	if !r.nextSeg() && l > 0 {
 		return nil, io.EOF
 	}
+	// l comes from a TLV length converted to int: reject negative values and
+	// anything beyond the end before doing position arithmetic with it.
+	if l < 0 || l > r.Length()-r.Pos() {
+		return nil, io.ErrUnexpectedEOF
+	}
 	ret := make(Wire, 0, len(r.wire)-r.seg)
 	for l > 0 {
 		if r.seg >= len(r.wire) {
@@ -198,6 +203,9 @@ func (r *WireReader) ReadWire(l int) (Wire, error) {
 }
 
 func (r *WireReader) ReadBuf(l int) (Buffer, error) {
+	if l < 0 || l > r.Length()-r.Pos() {
+		return nil, io.ErrUnexpectedEOF
+	}
 	if !r.nextSeg() {
 		if l == 0 {
 			return Buffer{}, nil
@@ -275,19 +283,19 @@ func (r *WireReader) Skip(n int) error {
 	if n < 0 {
 		return errors.New("encoding.WireReader.Skip: backword skipping is not allowed")
 	}
+	if n > r.Length()-r.Pos() {
+		return io.EOF
+	}
 	r.pos += n
-	for r.pos > len(r.wire[r.seg]) {
+	for r.seg < len(r.wire) && r.pos > len(r.wire[r.seg]) {
 		r.pos -= len(r.wire[r.seg])
 		r.seg++
-		if r.seg >= len(r.wire) {
-			return io.EOF
-		}
 	}
 	return nil
 }
 
 func (r *WireReader) Delegate(l int) ParseReader {
-	if l < 0 || r.seg >= len(r.wire) {
+	if l < 0 || r.seg >= len(r.wire) || l > r.Length()-r.Pos() {
 		return NewBufferReader([]byte{})
 	}
 	if r.pos+l <= len(r.wire[r.seg]) {
